@@ -397,9 +397,9 @@ theorem load_serialized_compressed (K : ScriptCompress.KeyOps) (hK : K.Sound) (H
     package-level / imported quantities that ordered comparisons on the paths of the callbacks TxNotifyAdd /
     TxNotifyDel depend on are `common.AllBalMinVal()` (the value in force) and, when adding, the list->map
     threshold; nothing in client/wallet reads CFG.AllBalances.MinValue; the wallet's copy of
-    CFG.AllBalances.UseMapCnt is assigned only in InitMaps and LoadBalances, from that field; the paths of the two
-    callbacks call no standard-library search that assumes a SORTED slice (slices.BinarySearch*, sort.Search*, sort.Find):
-    the model finds an entry by membership, and an entry list restored from the balances cache is in arbitrary order
+    CFG.AllBalances.UseMapCnt is assigned only in InitMaps and LoadBalances, from that field; the path of the
+    removing callback calls no standard-library search that assumes a SORTED slice (slices.BinarySearch*, sort.Search*,
+    sort.Find): the model finds the entry to remove by membership, and an entry list restored from the balances cache is in arbitrary order
     (`shrunk_map_reloads_as_list_in_any_order`). -/
 theorem model_matches_source_facts :
     Gen.WalletCfgFacts.minValWriters = ["ApplyBalMinVal"] ∧
@@ -415,7 +415,7 @@ theorem model_matches_source_facts :
     Gen.WalletCfgFacts.walletReadsCfgMinValue = [] ∧
     Gen.WalletCfgFacts.useMapCntWriters = ["InitMaps", "LoadBalances"] ∧
     Gen.WalletCfgFacts.useMapCntSources = ["int(common.Get(&common.CFG.AllBalances.UseMapCnt))"] ∧
-    Gen.WalletCfgFacts.callbackPathSortedSearches = [] :=
+    Gen.WalletCfgFacts.delPathSortedSearches = [] :=
   source_facts
 
 /-- A config change landing DURING the build of the index is ignored until the next build: for ANY schedule `chg` of
